@@ -51,7 +51,7 @@ def run_property(run, formats=None, relevant=None):
                 run.inconclusive_cases += 1
             run.case(None, nontrivial=False)
             continue
-        if ob.get("exc") is not None or ob.get("n_results") != 1:
+        if ob.get("exc") is not None or (ob.get("n_results") != 1 and fmt != "mbox"):     # (a mailbox yields one result per message)
             why = f"{ob['exc']['name']}: {ob['exc']['msg']}" if ob.get("exc") else f"{ob.get('n_results')} results"
             run.violation(f"{pid}:{fmt}:{label}:well-formed-document-not-extracted", f"generated {fmt} document (seed {case['seed']}, feature {label}) was not extracted: {why}", rep)
             run.case(f"{fmt}:{label}:rejected")
